@@ -64,6 +64,7 @@ type verifChildRule struct {
 }
 
 type verifPCConfig struct {
+	Name             string // name of the CompositeController object ("cc" when empty)
 	ParentRes        *dynamicdiscovery.APIResource
 	Children         []verifChildRule
 	GenerateSelector bool
@@ -114,6 +115,9 @@ func verifNewPC(w *env.World, cfg verifPCConfig) *verifPC {
 	}
 	cc := &v1alpha1.CompositeController{}
 	cc.Name = "cc"
+	if cfg.Name != "" {
+		cc.Name = cfg.Name
+	}
 	if cfg.GenerateSelector {
 		cc.Spec.GenerateSelector = &tr
 	}
